@@ -15,6 +15,7 @@
 //	for v := range ch      → for { v, ok := verifhook.Recv2(site, ch); if !ok {break}; … }
 //	mu.Lock()/RLock()      → verifhook.BeforeLock(site, &mu, kind); mu.Lock()
 //	mu.Unlock()/RUnlock()  → mu.Unlock(); verifhook.AfterUnlock(&mu, kind)   (also deferred)
+//	mu.TryLock()/TryRLock() → verifhook.TryLock(site, &mu, kind, mu.TryLock)  (expression position)
 //	once.Do(f)             → verifhook.OnceDo(site, &once, f)
 //
 // usage: instrument -dir <package dir> -hook <import path of verifhook>
@@ -332,6 +333,8 @@ func addrOf(x ast.Expr) ast.Expr {
 	}
 	return &ast.UnaryExpr{Op: token.AND, X: x}
 }
+
+var tryLockKinds = map[string]string{"Mutex.TryLock": "w", "RWMutex.TryLock": "w", "RWMutex.TryRLock": "r"}
 
 var lockKinds = map[string]string{
 	"Mutex.Lock": "w", "Mutex.Unlock": "w",
@@ -886,7 +889,15 @@ func rewriteExpr(e ast.Expr) ast.Expr {
 				return v
 			}
 		}
-		if _, name := syncMethod(v); name != "" {
+		if recv, name := syncMethod(v); name != "" {
+			if kind, ok := tryLockKinds[name]; ok && len(v.Args) == 0 {
+				// mu.TryLock() → verifhook.TryLock(site, &mu, kind, mu.TryLock): decided by the scheduler's lock model
+				stats["trylock"]++
+				recv = rewriteExpr(recv)
+				sel := v.Fun.(*ast.SelectorExpr)
+				sel.X = recv
+				return hook("TryLock", str(site(v)), addrOf(recv), str(kind), sel)
+			}
 			warn(v, "sync.%s in expression position is not instrumented", name)
 		}
 		v.Fun = rewriteExpr(v.Fun)
